@@ -355,21 +355,22 @@ def rule_trunc(ctx, rd):
     rvb = ctx.func('tx', 'read_varbytes')
     ok = False
     why = ''
-    ends = [s for s in rvb.node.body if isinstance(s, ast.Assign) and isinstance(s.value, ast.BinOp) and 'cursor' in q.names_in(s.value)]
-    rets = [s for s in rvb.node.body if isinstance(s, ast.Return)]
-    if len(ends) == 1 and len(rets) == 1 and isinstance(rets[0].value, ast.Tuple):
-        e = ends[0]
-        endv = e.targets[0].id if isinstance(e.targets[0], ast.Name) else None
-        vr = [s for s in rvb.node.body if isinstance(s, ast.Assign) and isinstance(s.value, ast.Call) and norm(s.value.func) == 'read_varint'
-              and isinstance(s.targets[0], ast.Tuple)]
-        size_var = vr[0].targets[0].elts[0].id if len(vr) == 1 else None
-        good_sum = isinstance(e.value.op, ast.Add) and {norm(e.value.left), norm(e.value.right)} == {'cursor', size_var}
-        r = rets[0].value
-        sl = r.elts[0]
-        good_ret = isinstance(sl, ast.Subscript) and isinstance(sl.slice, ast.Slice) and norm(sl.slice.lower) == 'cursor' \
-            and norm(sl.slice.upper) == endv and norm(r.elts[1]) == endv
-        ok = good_sum and good_ret
-        why = f'end = {norm(e.value)}, returns {norm(r)}'
+    # per return path, locals expressed in the inputs: (buf[c:c + n], c + n) with (n, c) = read_varint(buf, cursor)
+    from .. import paths as P
+    rps = P.returns(rvb.node)
+    ok = bool(rps)
+    for pth in rps:
+        r = pth.value
+        why = f'returns {norm(r)}'
+        if not (isinstance(r, ast.Tuple) and len(r.elts) == 2 and isinstance(r.elts[0], ast.Subscript) and isinstance(r.elts[0].slice, ast.Slice)):
+            ok = False
+            break
+        sl = r.elts[0].slice
+        rv = f'read_varint({rvb.params[0]}, {rvb.params[1]})'
+        lo, up = norm(sl.lower) if sl.lower is not None else None, sl.upper
+        good_ret = lo == f'{rv}[1]' and up is not None and norm(up) == norm(r.elts[1]) and norm(r.elts[0].value) == rvb.params[0]
+        good_sum = isinstance(up, ast.BinOp) and isinstance(up.op, ast.Add) and {norm(up.left), norm(up.right)} == {f'{rv}[1]', f'{rv}[0]'}
+        ok = ok and good_ret and good_sum
     ctx.check(ok, 'C13.TRUNC', ctx.key(rvb, None, 'declared advance'),
               'read_varbytes advances by the declared size, not by the length of the slice obtained',
               'read_varbytes does not advance by the declared size (' + why + ')', loc=ctx.loc(rvb, rvb.node))
